@@ -1,8 +1,8 @@
 ------------------------------ MODULE Authorizing ------------------------------
 (***************************************************************************)
 (* C18 -- case generator for authorizingBlobAccess and NewAnyAuthorizer:   *)
-(* every leaf table over two instance names, `any` nodes of two members    *)
-(* nested to depth 2, every operation kind.  The invariants state the      *)
+(* every leaf table over two instance names, `any` nodes of 0-3 members,   *)
+(* two-member nodes nested to depth 2, every operation kind.  The invariants state the      *)
 (* algebra of `any` that the property relies on.                           *)
 (***************************************************************************)
 EXTENDS AuthDefs
@@ -11,9 +11,13 @@ Names == {"a", "b"}
 Verdicts == {"allow", "deny", "err"}
 Leaves == {[kind |-> "leaf", tab |-> t] : t \in [Names -> Verdicts]}
 Any2(S, T) == {[kind |-> "any", members |-> <<x, y>>] : x \in S, y \in T}
+\* `any` of no member, of one member and of three members (the code special-cases 0 and 1, and filters the
+\* still-denied names member by member from the second on)
+AnyOdd == {[kind |-> "any", members |-> <<>>]} \cup {[kind |-> "any", members |-> <<x>>] : x \in Leaves}
+            \cup {[kind |-> "any", members |-> <<x, y, z>>] : x \in Leaves, y \in Leaves, z \in Leaves}
 CONSTANT Depth
-Trees == IF Depth = 0 THEN Leaves ELSE IF Depth = 1 THEN Leaves \cup Any2(Leaves, Leaves)
-         ELSE Leaves \cup Any2(Leaves, Leaves) \cup Any2(Leaves, Any2(Leaves, Leaves)) \cup Any2(Any2(Leaves, Leaves), Leaves)
+Trees == IF Depth = 0 THEN Leaves ELSE IF Depth = 1 THEN Leaves \cup Any2(Leaves, Leaves) \cup AnyOdd
+         ELSE Leaves \cup Any2(Leaves, Leaves) \cup AnyOdd \cup Any2(Leaves, Any2(Leaves, Leaves)) \cup Any2(Any2(Leaves, Leaves), Leaves)
 Ops == {[op |-> "Get", names |-> {"a"}], [op |-> "Comp", names |-> {"a"}], [op |-> "Put", names |-> {"a"}],
         [op |-> "Fm", names |-> {"a"}], [op |-> "Fm", names |-> {"a", "b"}], [op |-> "Fm", names |-> {}]}
 
